@@ -95,7 +95,7 @@ Definition C17_run (c : sx) : sx :=
   | SL (SL [limit; full; maxdiff; _; _; na; ns] :: ops) =>
       match dec_n limit, sx_bool full, sx_nat maxdiff, sx_nat na, sx_nat ns with
       | Some limit, Some full, Some maxdiff, Some na, Some ns =>
-          match steps (universe na ns) (init_db (mkCfg limit full maxdiff) 0 false) ops with
+          match steps (universe na ns) (init_db (mkCfg limit full maxdiff false false false) 0 false) ops with
           | Some os => SL os
           | None => SErr 1
           end
